@@ -248,7 +248,7 @@ class Aggregate:
         if item.get('seed') is not None:
             self.digests[item['seed']] = r['digest']
         for v in r.get('violations', []):
-            self.violations.append((item.get('seed', -1), item.get('plan'), v))
+            self.violations.append((item.get('seed') if item.get('seed') is not None else -1, item.get('plan'), v))
         if r.get('sample') is not None and len(self.samples) < 4 and r.get('nontrivial'):
             self.samples.append(r['sample'])
         for he in r.get('harness_errors', []):
